@@ -324,6 +324,7 @@ func (r *reader) getIndexMarked() (indexer, error) {
 	}
 	r.indexMu.RUnlock()
 
+	vhook.At("reader.index.wlock")
 	r.indexMu.Lock()
 	defer r.indexMu.Unlock()
 	vhook.At("reader.index.loading")
@@ -350,6 +351,7 @@ func (r *reader) getMessages() (*message.Reader, error) {
 	}
 	r.messagesMu.RUnlock()
 
+	vhook.At("reader.messages.wlock")
 	r.messagesMu.Lock()
 	defer r.messagesMu.Unlock()
 	vhook.At("reader.messages.loading")
